@@ -157,11 +157,11 @@ def step (st : St) (op impl : List String) : St × String × String :=
     let f := parseFrame kv
     if st.model.conn = .dead then (st, "dead", "na") else
     let seen := parseSeen impl
-    match processFrame st.model f with
+    match processFrame Facts.current st.model f with
     | .crash site => (st, "crash:" ++ enc site, "na")
     | .ok o next =>
       let v := match seen with
-        | some z => judge st.model f z
+        | some z => judge Facts.current st.model f z
         | none => "na"
       ({ model := next }, render o seen, v)
   | _ => (st, "bad-op", "na")
